@@ -71,6 +71,8 @@ def plan(tier, seed):
     pl.cases = production_cases(want) + lexing.lexer_cases(want) + print_contract_cases()
     pl.canaries = [canary()]
     pl.finite = [("C01-F/grammar-facts", parsing.grammar_facts)]
+    from vfkit import lean as _lean
+    pl.finite.append(("A5/Lean re-check of the lifting lemmas for operand runs", _lean.lemma_check))
     L = 4 if tier == "quick" else 6
 
     def numerals():
